@@ -240,10 +240,9 @@ def run_ok(rep):
 def canvas_report(ctx, ns):
     out = []
     for c in ctx.canvases:
-        tinfo = []
-        for t in c.tensors:
-            tinfo.append({"name": getattr(t, "name", None), "rank_ids": t.getRankIds() if isinstance(t, rt.Tensor) else None})
-        out.append({"tensors": tinfo, "displayed": c.displayed, "acts": c.acts})
+        out.append({"names": c.names, "ranks": c.ranks_at_creation, "displayed": c.displayed,
+                    "updates_at_creation": c.updates_at_creation, "updates_at_display": c.updates_at_display,
+                    "n_acts": len(c.acts), "acts": c.acts[:400], "total_updates": ctx.updates})
     return out
 
 
@@ -265,3 +264,69 @@ def timed(args):
     c1 = os.times()
     f1 = resource.getrusage(resource.RUSAGE_SELF).ru_minflt
     return {"t": round(time.time() - t0, 3), "user": round(c1.user - c0.user, 3), "sys": round(c1.system - c0.system, 3), "minflt": f1 - f0}
+
+
+def compile_many(args):
+    """Compile several YAML variants (fresh parse each) in this interpreter.
+    -> {"status": "ok", "variants": {name: {status, text|reject}}} (status key so the
+    generic machinery can treat it like run_spec)"""
+    out = {}
+    for name, y in args["variants"].items():
+        status, text, info = compile_spec(y, args.get("mode", "plain"))
+        out[name] = {"status": status, "text": text, "reject": info}
+    return {"status": "ok", "variants": out, "text": out.get(args.get("main", ""), {}).get("text")}
+
+
+def _ntmp(text):
+    ns = [int(m) for m in re.findall(r"\btmp(\d+)\b", text)]
+    return max(ns) + 1 if ns else 0
+
+
+def _shift_tmps(text, t):
+    return re.sub(r"\btmp(\d+)\b", lambda m: "tmp%d" % (int(m.group(1)) + t), text)
+
+
+def c05_unit(args):
+    """History experiment for C05: every subsequence of the cascade's Einsums is compiled
+    (fresh parse each) on this node; the text of X = S + [E] must be text(S) followed by the
+    stand-alone text of E with its temporaries shifted by the number text(S) uses."""
+    import itertools
+    spec = args["spec"]
+    n = len(spec["exprs"])
+    texts = {}
+    rejects = {}
+    for r in range(1, n + 1):
+        for idx in itertools.combinations(range(n), r):
+            s = dict(spec)
+            s["exprs"] = [spec["exprs"][i] for i in idx]
+            status, text, info = compile_spec(specmod.to_yaml(s), "plain")
+            if status == "ok":
+                texts[idx] = text
+            else:
+                rejects[idx] = info
+    out = {"status": "ok" if tuple(range(n)) in texts else "rejected", "n": n, "compiles": len(texts) + len(rejects),
+           "reject": rejects.get(tuple(range(n))), "mismatches": [], "subseq_rejected": [[list(k), v] for k, v in rejects.items()][:5]}
+    if out["status"] != "ok":
+        return out
+    full = texts[tuple(range(n))]
+    out["text"] = full
+    for idx, text in sorted(texts.items()):
+        if len(idx) == 1:
+            continue
+        prefix, last = idx[:-1], idx[-1:]
+        if prefix not in texts or last not in texts:
+            continue
+        want = texts[prefix] + "\n" + _shift_tmps(texts[last], _ntmp(texts[prefix]))
+        if text != want:
+            a, b = text.split("\n"), want.split("\n")
+            i = next((j for j in range(min(len(a), len(b))) if a[j] != b[j]), min(len(a), len(b)))
+            out["mismatches"].append({"subsequence": list(idx), "first_diff_line": i + 1,
+                                      "in_cascade": a[i] if i < len(a) else None,
+                                      "expected_from_standalone": b[i] if i < len(b) else None})
+    out["closed"] = closed.analyse(full, closed.allowed_names(spec))
+    runs = []
+    for inp in args.get("inputs", []):
+        rep, ns, ctx = execute(full, spec, inp, "plain")
+        runs.append(rep)
+    out["runs"] = runs
+    return out
